@@ -170,9 +170,9 @@ func applicableUni(c Cfg, r *Req) []string {
 			}
 		}
 	}
-	if c.UserAgent != "" {
+	if uaDemanded(c) {
 		out = append(out, "ua-confusable")
-		if hasFoldPartnerLetter(c.UserAgent) {
+		if hasFoldPartnerLetter(uaBase(c, r)) {
 			out = append(out, "ua-fold-partner")
 		}
 	}
@@ -219,20 +219,20 @@ func applyUniMut(t *rapid.T, c Cfg, r *Req, m string) (string, bool) {
 		r.Headers[i].Value = nv
 		return m + ":" + kind, true
 	case "ua-fold-partner":
-		if c.UserAgent == "" {
+		if !uaDemanded(c) {
 			return "", false
 		}
-		nv, ok := withFoldPartner(t, c.UserAgent)
+		nv, ok := withFoldPartner(t, uaBase(c, r))
 		if !ok {
 			return "", false
 		}
 		r.HasUA, r.UA = true, nv
 		return m, true
 	case "ua-confusable":
-		if c.UserAgent == "" {
+		if !uaDemanded(c) {
 			return "", false
 		}
-		nv, kind, ok := withConfusable(t, c.UserAgent)
+		nv, kind, ok := withConfusable(t, uaBase(c, r))
 		if !ok {
 			return "", false
 		}
